@@ -394,3 +394,68 @@ def cache_netloc(u):
     """fills four memo entries; returns nothing (the entries are checked against MEMO_SPECS)"""
     spec_parse.split_netloc(u.netloc)
     return None
+
+
+# ---------------------------------------------------------------- URL.build (C19, C17, C16, C01)
+
+def build_pre_encoded(scheme, authority, user, password, host, port, path, query_string, fragment):
+    """encoded=True: the parts are taken as they are; a default port is not stored"""
+    if authority:
+        netloc = authority
+    elif host:
+        if port is not None and port == default_port_of(scheme):
+            port = None
+        netloc = spec_parse.make_netloc(user, password, host, port)
+    else:
+        netloc = ""
+    return U(scheme, netloc, path, query_string, fragment)
+
+
+def build(cls, scheme, authority, user, password, host, port, path, query, query_string, fragment, encoded):
+    """C19/C17: arguments are validated first (a URL that build() returns can always be
+    printed); C16: the host is validated and canonicalised, a non-ASCII authority is screened;
+    C01: every component is quoted; C15: dot segments removed under an authority"""
+    if authority and (user or password or host or port):
+        raise ValueError("Can't mix authority with user, password, host or port")
+    if port is not None:
+        if isinstance(port, bool) or not isinstance(port, int):
+            raise TypeError("The port is required to be int")
+        if port < 0 or port > 65535:
+            raise ValueError("port must be between 0 and 65535")
+    if port and not host:
+        raise ValueError("Can't build URL with port but without host")
+    if query and query_string:
+        raise ValueError("Only one of query or query_string should be passed")
+    if encoded:
+        return build_pre_encoded(scheme, authority, user, password, host, port, path, query_string, fragment)
+    netloc = ""
+    have_host = False
+    if authority:
+        if not authority.isascii():
+            spec_parse.check_netloc_nfkc(authority)
+        user, password, h, port = spec_parse.split_netloc(authority)
+        h = encode_host(h, False) if h else ""
+        have_host = True
+    elif host:
+        h = encode_host(host, True)
+        have_host = True
+    if have_host:
+        if port is not None and port == default_port_of(scheme):
+            port = None
+        u = None
+        if user is not None:
+            u = spec_parse.QUOTER(user) if user else user
+        pw = None if password is None else spec_parse.QUOTER(password)
+        netloc = spec_parse.make_netloc(u, pw, h, port)
+    if path:
+        path = spec_parse.PATH_QUOTER(path)
+        if netloc:
+            if "." in path:
+                path = normalize_path(path)
+            if path[:1] != "/":
+                raise ValueError("Path in a URL with authority should start with a slash ('/') if set")
+    if query_string:
+        query_string = spec_parse.QUERY_QUOTER(query_string)
+    if fragment:
+        fragment = spec_parse.FRAGMENT_QUOTER(fragment)
+    return U(scheme, netloc, path, query_string, fragment)
